@@ -751,7 +751,8 @@ impl<'a> Gen<'a> {
         // element to Inner's implementation (FromDeriveInput and FromAttributes only)
         if matches!(tr, Trait::DeriveInput | Trait::Attributes) && self.profile.options && self.rng.chance(1, 8) {
             let outer = self.recvs.len();
-            let generic = self.profile.generic_recv && self.rng.coin();
+            // around a generic receiver the wrapper is generic itself (`struct Outer<T>(T);`)
+            let generic = !self.recvs[id].generics.is_empty() || (self.profile.generic_recv && self.rng.coin());
             self.recvs.push(Recv {
                 id: outer,
                 tr,
